@@ -4,7 +4,7 @@ EXTRACT_V = "ExtractLink.v"
 MODEL_DEPS = ["Base/Bytes.v", "Base/GoSem.v", "Gen/FromGo.v", "DM/Value.v", "Codec/Cid.v", "Codec/Cbor.v", "Link/LinkSys.v"]
 DRIVER = "link_driver"
 HARNESS = "c05"
-COUNTS = {"quick": 1500, "thorough": 6000}
+COUNTS = {"quick": 3000, "thorough": 8000}
 DESIGN_REF = "DESIGN.md §4 C05"
 TECHNIQUE = ("Coq proof by induction over store/compute/load histories of a LinkSystem model that is parametric in "
              "the hash functions and the codec registry + differential run of the extracted model (real digests and "
@@ -20,15 +20,17 @@ LEVEL_TEXT = ("Theorems in coq/Props/C05.v about the executable model coq/Link/L
               "(<=30 ops quick, <=300 thorough) over one LinkSystem and store as the Go harness: CID v0/v1 x 5 codecs x "
               "sha2-256/sha2-512/sha3-256/identity x full/truncated digests, basicnode and bindnode holders, "
               "re-created values in other insertion orders, memstore and cidlink.Memory, store contents compared.")
-LEVEL_NOTE = ("The hash functions are arbitrary (no law assumed). dag-json/json are not modelled: their encoder/decoder "
-              "behaviour enters the extracted model as tables printed by the harness, and the theorems use them only "
-              "through stated laws (round trip, order-insensitivity), which are C04's subject. The dag-cbor round-trip and "
-              "order-insensitivity laws are C02's theorems; here they are premises of C05_store_load_roundtrip / "
-              "C05_link_fn_perm (proved for raw). Node implementations are abstracted to their data-model value; "
-              "holder-independence is established by the differential run only.")
+LEVEL_NOTE = ("The hash functions are arbitrary (no law assumed). For dag-cbor the codec laws (round trip, insensitivity to "
+              "map entry order) are discharged against coq/Codec/Cbor.v by citing C02's theorems, so "
+              "C05_dagcbor_link_fn_perm / C05_dagcbor_store_load have no codec premise; raw likewise. dag-json/json are "
+              "not modelled: their encoder/decoder behaviour enters the extracted model as tables printed by the harness, "
+              "and the general theorems use them only through the stated laws, which are C04's subject. Node "
+              "implementations are abstracted to their data-model value; holder-independence is established by the "
+              "differential run only. Store-then-load is conditional on no other store of the history colliding on the "
+              "storage key (a property of the history, not of the hash; shown necessary).")
 TRUSTED = ["hash functions: arbitrary Section variables hasher_ok/hash (no law assumed); real digests enter the extracted model as per-record tables",
            "dag-json and json codecs: Section-level codec values; laws assumed where stated: roundtrips, order_insensitive (C04); their real behaviour enters the model run as per-record tables",
-           "dag-cbor round-trip / order-insensitivity (premises of C05_store_load_roundtrip, C05_link_fn_perm): C02's theorems about coq/Codec/Cbor.v",
+           "dag-cbor round-trip / order-insensitivity: C02's theorems (Proofs/CborEnc.v encb_perm_invariant, Proofs/CborDec.v decode_encode) about the hand-written model coq/Codec/Cbor.v of dagcbor + refmt",
            "go-cid / go-multihash / go-varint (Prefix, NewCidV0/V1, Encode, PutUvarint): hand-modelled in coq/Link/LinkSys.v; tied by correspondence only",
            "node implementations (basicnode, bindnode) abstracted to the data-model value they hold; tied by correspondence only"]
 RULE = ("random histories of Store / ComputeLink / Load / LoadRaw / LoadPlusRaw / Fill on one LinkSystem + store; values "
